@@ -125,7 +125,10 @@ def run_case(s):
                          "detail": traceback.format_exc()[-1200:]})
             return None
         r = first_diff(n0, n2)
-        if r:
+        if r and r[0].endswith("/condition") and isinstance(r[1], str) and isinstance(r[2], str) and r[1].split() == r[2].split():
+            # same clauses, other spacing: the rule text has no parentheses, the condition tree was regrouped on reading
+            viol.append({"key": "%s:controls[]/condition:regrouped" % tag, "what": "%s: %s is %r in the original dictionary and %r after the round trip (the nested condition is regrouped)" % (tag, r[0], r[1], r[2])})
+        elif r:
             viol.append({"key": "%s:%s" % (tag, klass(r[0], n0)), "what": "%s: %s is %r in the original dictionary and %r after the round trip" % (tag, r[0], r[1], r[2])})
         return wn2
     jd = json.loads(json.dumps(d0, default=str))
